@@ -1,6 +1,7 @@
 import warnings
 import torch
 from typing import Callable, List, Optional
+from xitorch._utils.exceptions import ConvergenceWarning
 
 def gd(fcn: Callable[..., torch.Tensor], x0: torch.Tensor, params: List,
        # gd parameters
@@ -203,7 +204,7 @@ class TerminationCondition(object):
             msg = ("The minimizer does not converge after %d iterations. "
                    "Best |dx|=%.4e, |df|=%.4e, f=%.4e" %
                    (self._max_i, self._best_dxnorm, self._best_df, self._best_f))
-            warnings.warn(msg)
+            warnings.warn(ConvergenceWarning(msg))
             assert isinstance(self._best_x, torch.Tensor)
             return self._best_x
         else:
